@@ -24,6 +24,8 @@ func (e *Engine) scanDeterminism() []scanResult {
 	// 1. no package-level variable is written outside package initialisation
 	gw := e.globalsWritten(corePkgs)
 	out = append(out, scanResult{"scan[C17:globals]", len(gw) == 0, "package-level variables written outside init: " + strings.Join(gw, "; ")})
+	gs := e.globalStateUses(corePkgs)
+	out = append(out, scanResult{"scan[C17:global-state]", len(gs) == 0, "package-level variables whose address escapes or whose referent is updated or handed out, outside init: " + strings.Join(gs, "; ")})
 	// 2. no goroutines, channels, select, defer/recover, time, randomness, address printing
 	var bad []string
 	var mapRanges []string
@@ -98,4 +100,163 @@ func (e *Engine) scanAstImmutable() scanResult {
 	}
 	sort.Strings(bad)
 	return scanResult{"scan[ast-immutable-in-emitter]", len(bad) == 0, strings.Join(bad, "; ")}
+}
+
+// globalStateUses: uses of package-level variables of the core packages, outside package initialisation, that
+// could make them carry state from one compilation to the next without being a direct store (those are found by
+// globalsWritten): the address of the variable escaping into a call or another location, and a reference value
+// (map, pointer, slice) loaded from the variable being updated in place or handed to a callee that is not on the
+// short list of read-only library methods.
+func (e *Engine) globalStateUses(pkgs map[string]bool) []string {
+	seen := map[string]bool{}
+	readOnlyCallee := func(c *ssa.CallCommon) bool {
+		if sc := c.StaticCallee(); sc != nil && sc.Pkg != nil {
+			p := sc.Pkg.Pkg.Path()
+			if p == "regexp" { // *regexp.Regexp is immutable after MustCompile as far as results go (A-regexp)
+				return true
+			}
+		}
+		if b, ok := c.Value.(*ssa.Builtin); ok {
+			switch b.Name() {
+			case "len", "cap":
+				return true
+			}
+		}
+		return false
+	}
+	isRef := func(t types.Type) bool {
+		switch t.Underlying().(type) {
+		case *types.Map, *types.Pointer, *types.Slice, *types.Chan, *types.Signature, *types.Interface:
+			return true
+		}
+		return false
+	}
+	for _, fn := range e.allFns {
+		if fn.Pkg == nil || !pkgs[fn.Pkg.Pkg.Name()] || fn.Name() == "init" {
+			continue
+		}
+		// values derived from a global: address-of (the Global itself, FieldAddr/IndexAddr of it) and loaded references
+		addr := map[ssa.Value]string{}
+		ref := map[ssa.Value]string{}
+		note := func(g string, what string) { seen[g+": "+what+" (in "+e.keyOf[fn]+")"] = true }
+		gname := func(v ssa.Value) (string, bool) {
+			if g, ok := v.(*ssa.Global); ok && g.Pkg != nil && pkgs[g.Pkg.Pkg.Name()] {
+				return g.Pkg.Pkg.Name() + "." + g.Name(), true
+			}
+			if n, ok := addr[v]; ok {
+				return n, true
+			}
+			return "", false
+		}
+		for pass := 0; pass < 3; pass++ { // derived values settle in a few passes over the blocks
+			for _, b := range fn.Blocks {
+				for _, ins := range b.Instrs {
+					switch i := ins.(type) {
+					case *ssa.FieldAddr:
+						if n, ok := gname(i.X); ok {
+							addr[i] = n
+						} else if n, ok := ref[i.X]; ok {
+							addr[i] = n
+						}
+					case *ssa.IndexAddr:
+						if n, ok := gname(i.X); ok {
+							addr[i] = n
+						} else if n, ok := ref[i.X]; ok {
+							addr[i] = n
+						}
+					case *ssa.UnOp:
+						if i.Op.String() == "*" {
+							if n, ok := gname(i.X); ok && isRef(i.Type()) {
+								ref[i] = n
+							}
+						}
+					case *ssa.Phi:
+						for _, ed := range i.Edges {
+							if n, ok := ref[ed]; ok {
+								ref[i] = n
+							}
+						}
+					case *ssa.ChangeType:
+						if n, ok := ref[i.X]; ok {
+							ref[i] = n
+						}
+					case *ssa.Slice:
+						if n, ok := ref[i.X]; ok {
+							ref[i] = n
+						}
+					}
+				}
+			}
+		}
+		for _, b := range fn.Blocks {
+			for _, ins := range b.Instrs {
+				switch i := ins.(type) {
+				case *ssa.Store:
+					if n, ok := addr[i.Addr]; ok {
+						note(n, "updated in place")
+					}
+					if n, ok := gname(i.Val); ok {
+						note(n, "address stored")
+					}
+				case *ssa.MapUpdate:
+					if n, ok := ref[i.Map]; ok {
+						note(n, "map updated in place")
+					}
+				case ssa.CallInstruction:
+					c := i.Common()
+					if readOnlyCallee(c) {
+						continue
+					}
+					if b, ok := c.Value.(*ssa.Builtin); ok && (b.Name() == "delete" || b.Name() == "append" || b.Name() == "copy" || b.Name() == "clear") {
+						if len(c.Args) > 0 {
+							if n, ok := ref[c.Args[0]]; ok && b.Name() != "append" {
+								note(n, b.Name()+" on it")
+							}
+						}
+						continue
+					}
+					ops := append([]ssa.Value{}, c.Args...)
+					if c.IsInvoke() {
+						ops = append(ops, c.Value)
+					}
+					for _, a := range ops {
+						if n, ok := gname(a); ok {
+							note(n, "address passed to "+calleeName(c))
+						}
+						if n, ok := ref[a]; ok {
+							if _, isMap := a.Type().Underlying().(*types.Map); isMap || true {
+								note(n, "reference passed to "+calleeName(c))
+							}
+						}
+					}
+				case *ssa.MakeInterface:
+					if n, ok := gname(i.X); ok {
+						note(n, "address boxed")
+					}
+				case *ssa.MakeClosure:
+					for _, bd := range i.Bindings {
+						if n, ok := gname(bd); ok {
+							note(n, "address captured")
+						}
+					}
+				}
+			}
+		}
+	}
+	var out []string
+	for k := range seen {
+		out = append(out, k)
+	}
+	sort.Strings(out)
+	return out
+}
+
+func calleeName(c *ssa.CallCommon) string {
+	if sc := c.StaticCallee(); sc != nil {
+		return sc.String()
+	}
+	if c.IsInvoke() {
+		return c.Method.Name()
+	}
+	return "a function value"
 }
